@@ -96,7 +96,8 @@ class OnDiskStorage:
         if enum is not None:
             return EnumArray(numpy.load(file), enum)
 
-        array: t.Array[t.DTypeGeneric] = numpy.load(file)
+        # Arrays of strings are stored as objects, hence pickled.
+        array: t.Array[t.DTypeGeneric] = numpy.load(file, allow_pickle=True)
 
         return array
 
